@@ -505,6 +505,28 @@ def run(rep: Report, tier: str) -> None:
             rep.add(Finding("R32.12", f"R32.12/format-before-null-test/{src(fnode.stmt)[:40] if fnode.stmt is not None else ''}", fns.module.rel, getattr(fnode.stmt, "lineno", fns.node.lineno), fns.qualname,
                             f"`{src(fnode.stmt)[:70] if fnode.stmt is not None else ''}` is reachable without the null test: a NULL Date scalar arrives as pd.NaT (a datetime instance), so "
                             f"`sc_r <- cast(null, date);` ends in a raw `ValueError: NaTType does not support strftime` instead of a scalar holding null", describe_path(p12)))
+    # ---- R32.13: rounding a fetched scalar is total over the floats the engine can return ----
+    rep.rule("R32.13", "_round_significant evaluated on every kind of float DuckDB can return for a scalar (zero, tiny, huge, +/-infinity): it returns a float, it does not raise "
+                       "(exp(1000) and power(10, 400) overflow to infinity)")
+    frs = P.func(f"{EXEC}._round_significant")
+    n13 = 0
+    for v13 in (0.0, -0.0, 1.5, -123456.789, 5e-324, -2.5e-300, 1.7976931348623157e308, float("inf"), float("-inf")):
+        for digits in (15, 6, 1):
+            try:
+                got13 = _I11(P, max_steps=4000).call(frs, {frs.params[0]: v13, frs.params[1]: digits})
+                bad13 = None if isinstance(got13, float) or isinstance(got13, int) else f"returns {got13!r}"
+            except _R11 as r:
+                bad13 = f"raises {getattr(r.exc, 'kind', '?')} ({str(getattr(r.exc, 'kwargs', {}).get('message', ''))[:60]})"
+            except _U11 as e:
+                raise AnalysisError(f"R32.13: _round_significant outside the evaluator's language: {e}")
+            n13 += 1
+            if digits == 15:
+                rep.instance("R32.13", f"round/{v13!r}", nontrivial=True, sample={"value": repr(v13), "outcome": bad13 or "float"})
+            if bad13 and digits == 15:
+                rep.add(Finding("R32.13", f"R32.13/round/{v13!r}", frs.module.rel, frs.node.lineno, frs.qualname,
+                                f"_round_significant({v13!r}, {digits}) {bad13}: a scalar result with that value (e.g. `sc_r <- exp(1000);`) makes run() end in a raw Python exception "
+                                f"instead of returning the scalar"))
+    rep.floor("R32.13 values x digits", n13, 20)
     rep.assumptions = ["a DuckDB error() call surfaces as duckdb.InvalidInputException whose text contains the constant message",
                        "substring tests on the dynamic suffix of a message are treated as not matching"]
 
